@@ -79,10 +79,15 @@ fn verify_all<E: Elem, V: VecApi<E>>(ctx: &mut Ctx, vs: &[V], ms: &[Vec<u32>], n
                 ctx.viol("C16/sibling-changed", format!("{what}: vector #{i} no longer matches its model ({} vs {} elements)", got.len(), m.len()));
             } else if ctx.on.c08 {
                 ctx.viol("C08/contents-mismatch", format!("{what}: vector #{i} no longer matches its model ({} vs {} elements)", got.len(), m.len()));
+                if ctx.on.c07 && ctx.had_failure {
+                    ctx.viol("C07/contents-changed-after-failure", format!("{what}: after an allocation failure earlier in this run vector #{i} no longer matches its model ({} vs {} elements)", got.len(), m.len()));
+                }
             }
         }
         if !E::ZST {
             all_ids.extend(ids_of(v.slice()));
+        } else if V::KIND != VKind::Boxed && v.cap() != usize::MAX && ctx.on.c08 {
+            ctx.viol("C08/zst-capacity", format!("{what}: a {} of zero-sized elements reports capacity {} instead of usize::MAX", KIND_NAMES[V::KIND as usize], v.cap()));
         }
     }
     if !E::ZST && (ctx.on.c16 || ctx.on.c06) {
@@ -355,6 +360,43 @@ pub fn drive_bumpvec<'b, 'c, E: Elem, B: BumpAllocatorTypedScope<'b> + Clone>(ct
                         boxes.push(b);
                         mboxes.push(m);
                     }
+                }
+            }
+            K_CLONE => {
+                // BumpVec::clone / IntoIter::clone (both go through FixedBumpVec::from_init)
+                let t = op.a[0] as usize % vs.len();
+                // `clone` only exists in the panicking form
+                if vs.len() >= 4 || !ids_budget_ok(3 * ms[t].len() + 2) || !ctx.panicking_ok(&op) {
+                    continue;
+                }
+                let via_iter = op.a[1] & 1 == 1;
+                let src = &vs[t];
+                let out = ctx.call(&op, false, || {
+                    if via_iter {
+                        let it = src.clone().into_iter();
+                        let it2 = it.clone();
+                        drop(it);
+                        let b = src.allocator().clone();
+                        Ok(BumpVec::from_iter_in(it2, b))
+                    } else {
+                        Ok(src.clone())
+                    }
+                });
+                match out {
+                    Outcome::Ok(c) => {
+                        let mut m = ms[t].clone();
+                        compare(ctx, &c, &mut m, "clone");
+                        ctx.stats.probe("convert.clone");
+                        vs.push(c);
+                        ms.push(m);
+                        ps.push(Promise::default());
+                    }
+                    Outcome::LibPanic(msg) => {
+                        if ctx.on.c08 && !ctx.claimed {
+                            ctx.viol("C08/panic-mismatch", format!("clone panicked: {msg}"));
+                        }
+                    }
+                    _ => {}
                 }
             }
             K_INTO_ITER => {
@@ -685,9 +727,49 @@ pub fn drive_fixed<'b, E: Elem, B: BumpAllocatorTypedScope<'b> + Clone>(ctx: &mu
                     Ok(bv.into_fixed_vec())
                 });
                 if let Outcome::Ok(fv) = out {
-                    m = vals_of(&fv);
+                    let got = vals_of(&fv);
+                    let pushed = got.len().saturating_sub(m.len());
+                    if ctx.on.c08 && (got.len() < m.len() || got[..m.len()] != m[..] || pushed > xs.len() || got[m.len()..] != xs[..pushed] || (!try_ && pushed != xs.len())) {
+                        ctx.viol("C08/conversion-contents", format!("into_vec + {} pushes + into_fixed_vec: {} elements that are not the old {} + a prefix of the pushed ones", xs.len(), got.len(), m.len()));
+                    }
+                    m = got;
                     ctx.stats.probe("convert.fixed_vec_roundtrip");
                     vs.push(fv);
+                    ms.push(m);
+                }
+            }
+            K_CLONE => {
+                // FixedBumpVec -> BumpBox<[T]> -> FixedBumpVec::from_init: a *full* fixed vector (zero-sized: unlimited)
+                let t = op.a[0] as usize % vs.len();
+                if !ids_budget_ok(4) {
+                    continue;
+                }
+                let v = vs.swap_remove(t);
+                let mut m = ms.swap_remove(t);
+                let x = ctx.fresh_val();
+                let out = ctx.call(&op, false, || {
+                    let b = v.into_boxed_slice();
+                    let mut f = FixedBumpVec::from_init(b);
+                    let cap = f.capacity();
+                    let full = f.is_full();
+                    let pushed = f.try_push(E::new(x)).is_ok();
+                    Ok((f, cap, full, pushed))
+                });
+                if let Outcome::Ok((f, cap, full, pushed)) = out {
+                    if ctx.on.c08 {
+                        if E::ZST && (cap != usize::MAX || full || !pushed) {
+                            ctx.viol("C08/zst-capacity", format!("FixedBumpVec::from_init of zero-sized elements: capacity {cap}, is_full {full}, push accepted {pushed}"));
+                        }
+                        if !E::ZST && (cap != m.len() || !full || pushed) {
+                            ctx.viol("C08/fixed-grew", format!("FixedBumpVec::from_init of {} elements: capacity {cap}, is_full {full}, push accepted {pushed}", m.len()));
+                        }
+                    }
+                    if pushed {
+                        m.push(x);
+                    }
+                    compare(ctx, &f, &mut m, "from_init");
+                    ctx.stats.probe("convert.from_init");
+                    vs.push(f);
                     ms.push(m);
                 }
             }
@@ -1292,8 +1374,9 @@ macro_rules! drive_mut_impl {
             }
         }
 
-        pub fn $fname<'b, E: Elem, B: MutBumpAllocatorTypedScope<'b> + BumpAllocatorCore + bump_scope::traits::BumpAllocator>(ctx: &mut Ctx, bump: &mut B, min_align: usize) {
+        pub fn $fname<'b, E: Elem, B: MutBumpAllocatorTypedScope<'b> + BumpAllocatorCore + bump_scope::traits::BumpAllocator + TryWithMut>(ctx: &mut Ctx, bump: &mut B, min_align: usize) {
             let mut results: Vec<(std::ptr::NonNull<[E]>, Vec<u32>)> = Vec::new();
+            let mut blobs: Vec<(*const u8, Vec<u8>)> = Vec::new();
             'outer: while let Some(first) = ctx.next_op() {
                 let mark0 = positions(&*bump);
                 let mark = PosMark { chunks: mark0.0.clone(), cur: mark0.1 };
@@ -1303,6 +1386,10 @@ macro_rules! drive_mut_impl {
                 }
                 if first.kind == K_HELPER {
                     helper_op::<E, B>(ctx, bump, &first, &mark, alloc_before, min_align, &mut results);
+                    continue;
+                }
+                if first.kind == K_TRY_WITH {
+                    try_with_op::<B>(ctx, bump, &first, &mark, alloc_before, min_align, &mut blobs);
                     continue;
                 }
                 if first.kind == K_NOISE {
@@ -1488,6 +1575,116 @@ fn helper_op<'b, E: Elem, B: MutBumpAllocatorTypedScope<'b> + BumpAllocatorCore>
                 ctx.viol(if ctx.on.c07 { "C07/try-method-unwound" } else { "C15/helper-panicked" }, format!("alloc_iter_mut panicked: {m}"));
             }
         }
+    }
+}
+
+/// `alloc_try_with_mut` / `try_alloc_try_with_mut` (C15): the closure returns Ok, returns Err or unwinds; the value is
+/// small or big enough to need another chunk.
+pub trait TryWithMut {
+    /// Ok(Ok(ptr)) value made, Ok(Err(e)) closure error, Err(()) allocation failed
+    fn try_with_mut<T>(&mut self, try_: bool, f: impl FnOnce() -> Result<T, u32>) -> Result<Result<std::ptr::NonNull<T>, u32>, ()>;
+}
+
+impl<A: BaseAllocator<S::GuaranteedAllocated>, S: BumpAllocatorSettings> TryWithMut for &mut Bump<A, S> {
+    fn try_with_mut<T>(&mut self, try_: bool, f: impl FnOnce() -> Result<T, u32>) -> Result<Result<std::ptr::NonNull<T>, u32>, ()> {
+        let r = if try_ { self.try_alloc_try_with_mut(f).map_err(drop)? } else { self.alloc_try_with_mut(f) };
+        Ok(r.map(|b| b.into_raw()))
+    }
+}
+
+impl<A: BaseAllocator<S::GuaranteedAllocated>, S: BumpAllocatorSettings> TryWithMut for &mut bump_scope::BumpScope<'_, A, S> {
+    fn try_with_mut<T>(&mut self, try_: bool, f: impl FnOnce() -> Result<T, u32>) -> Result<Result<std::ptr::NonNull<T>, u32>, ()> {
+        let r = if try_ { self.try_alloc_try_with_mut(f).map_err(drop)? } else { self.alloc_try_with_mut(f) };
+        Ok(r.map(|b| b.into_raw()))
+    }
+}
+
+fn try_with_op<'b, B: MutBumpAllocatorTypedScope<'b> + BumpAllocatorCore + TryWithMut>(
+    ctx: &mut Ctx,
+    bump: &mut B,
+    op: &Op,
+    mark: &PosMark,
+    alloc_before: usize,
+    min_align: usize,
+    blobs: &mut Vec<(*const u8, Vec<u8>)>,
+) {
+    fn go<'b, B: MutBumpAllocatorTypedScope<'b> + BumpAllocatorCore + TryWithMut, const N: usize>(
+        ctx: &mut Ctx,
+        bump: &mut B,
+        op: &Op,
+        mark: &PosMark,
+        alloc_before: usize,
+        min_align: usize,
+        blobs: &mut Vec<(*const u8, Vec<u8>)>,
+    ) {
+        let try_ = !ctx.panicking_ok(op) || op.a[2] & 1 == 1;
+        let fails = op.a[1] % 3 == 1;
+        let seed = (op.a[3] % 251) as u8;
+        let make = move || -> Result<[u8; N], u32> {
+            elem::tick(); // a callback position: the fault plan may unwind from here
+            if fails { Err(seed as u32) } else { Ok(std::array::from_fn(|i| noise_byte(seed, i))) }
+        };
+        let out = ctx.call(op, false, || bump.try_with_mut(try_, make));
+        ctx.drain_errors();
+        match out {
+            Outcome::Ok(Ok(raw)) => {
+                let got: &[u8; N] = unsafe { raw.as_ref() };
+                let want: Vec<u8> = (0..N).map(|i| noise_byte(seed, i)).collect();
+                if ctx.on.c15 && got[..] != want[..] {
+                    ctx.viol("C15/finalised-contents", format!("alloc_try_with_mut returned a value of {N} bytes with wrong contents"));
+                }
+                if ctx.on.c15 && fails {
+                    ctx.viol("C15/finalised-contents", "alloc_try_with_mut returned Ok although the closure returned Err".into());
+                }
+                let now = positions(&*bump);
+                if ctx.on.c15 {
+                    let bound = std::mem::size_of::<Result<[u8; N], u32>>() + std::mem::align_of::<Result<[u8; N], u32>>() - 1 + (min_align - 1);
+                    if now.1 == mark.cur {
+                        let delta = now.2 - alloc_before;
+                        if delta > bound {
+                            ctx.viol("C15/finalise-wasted-space", format!("alloc_try_with_mut of {N} bytes advanced allocated() by {delta} > {bound}"));
+                        }
+                    } else {
+                        let used = bump.any_stats().current_chunk().map_or(0, |c| c.allocated());
+                        if used > bound {
+                            ctx.viol("C15/finalise-wasted-space", format!("alloc_try_with_mut of {N} bytes in a fresh chunk left {used} > {bound} bytes allocated in it"));
+                        }
+                        check_positions(ctx, mark, &now, "alloc_try_with_mut");
+                    }
+                }
+                ctx.stats.probe("c15.try_with_ok");
+                blobs.push((raw.as_ptr() as *const u8, want));
+            }
+            Outcome::Ok(Err(e)) => {
+                if ctx.on.c15 && (!fails || e != seed as u32) {
+                    ctx.viol("C15/finalised-contents", "alloc_try_with_mut returned an Err the closure did not produce".into());
+                }
+                check_unfinalised(ctx, &*bump, mark, alloc_before, "alloc_try_with_mut whose closure returned Err");
+                ctx.stats.probe("c15.try_with_err");
+            }
+            Outcome::Injected | Outcome::AllocFailed => {
+                check_unfinalised(ctx, &*bump, mark, alloc_before, "alloc_try_with_mut that failed or unwound");
+                ctx.stats.probe("c15.try_with_unwound_or_failed");
+            }
+            Outcome::LibPanic(m) => {
+                if ctx.on.c15 || ctx.on.c07 {
+                    ctx.viol(if ctx.on.c07 { "C07/try-method-unwound" } else { "C15/helper-panicked" }, format!("alloc_try_with_mut panicked: {m}"));
+                }
+            }
+        }
+    }
+    for (k, (ptr, want)) in blobs.iter().enumerate() {
+        let got = unsafe { std::slice::from_raw_parts(*ptr, want.len()) };
+        if got != &want[..] && (ctx.on.c15 || ctx.on.c08) {
+            ctx.viol(if ctx.on.c15 { "C15/finalised-contents" } else { "C08/neighbour-overwritten" }, format!("value #{k} made by alloc_try_with_mut changed afterwards"));
+            break;
+        }
+    }
+    match op.a[0] % 4 {
+        0 => go::<B, 5>(ctx, bump, op, mark, alloc_before, min_align, blobs),
+        1 => go::<B, 48>(ctx, bump, op, mark, alloc_before, min_align, blobs),
+        2 => go::<B, 200>(ctx, bump, op, mark, alloc_before, min_align, blobs),
+        _ => go::<B, 1500>(ctx, bump, op, mark, alloc_before, min_align, blobs),
     }
 }
 
